@@ -3,6 +3,8 @@ package main
 import (
 	"context"
 	"fmt"
+	"google.golang.org/grpc/codes"
+	"google.golang.org/grpc/status"
 	"net/http"
 	"net/http/httptest"
 	"net/url"
@@ -65,10 +67,16 @@ func credsDesc(o *credsObs) *grpc.ServiceDesc {
 				return nil, err
 			}
 			return m, nil
+		}}, {MethodName: "UF", Handler: func(srv interface{}, ctx context.Context, dec func(interface{}) error, _ grpc.UnaryServerInterceptor) (interface{}, error) {
+			o.see(ctx)
+			return nil, status.Error(codes.NotFound, "handler says no")
 		}}},
 		Streams: []grpc.StreamDesc{{StreamName: "BD", ClientStreams: true, ServerStreams: true, Handler: func(srv interface{}, ss grpc.ServerStream) error {
 			o.see(ss.Context())
 			return nil
+		}}, {StreamName: "BDF", ClientStreams: true, ServerStreams: true, Handler: func(srv interface{}, ss grpc.ServerStream) error {
+			o.see(ss.Context())
+			return status.Error(codes.NotFound, "handler says no")
 		}}},
 	}
 }
@@ -95,7 +103,7 @@ func credsCase(c map[string]interface{}) (out map[string]interface{}) {
 		out[k] = v
 	}
 	out["panicked"] = false
-	out["err"], out["requests"], out["ran"] = false, -1, false
+	out["err"], out["requests"], out["ran"], out["herr"] = false, -1, false, false
 	out["hmd"] = [][]interface{}{}
 	out["cpeer"], out["ctls"], out["hpeer"], out["htls"] = false, false, false, false
 	defer func() {
@@ -148,11 +156,15 @@ func credsCase(c map[string]interface{}) (out map[string]interface{}) {
 		opts = append(opts, grpc.Peer(&peers[i]))
 	}
 	var err error
+	sfx := ""
+	if c["outcome"] == "fail" {
+		sfx = "F"
+	}
 	if c["kind"] == "unary" {
-		err = ch.Invoke(ctx, "/verif.Svc/U", &gt.Message{}, &gt.Message{}, opts...)
+		err = ch.Invoke(ctx, "/verif.Svc/U"+sfx, &gt.Message{}, &gt.Message{}, opts...)
 	} else {
 		var st grpc.ClientStream
-		st, err = ch.NewStream(ctx, &grpc.StreamDesc{StreamName: "BD", ClientStreams: true, ServerStreams: true}, "/verif.Svc/BD", opts...)
+		st, err = ch.NewStream(ctx, &grpc.StreamDesc{StreamName: "BD" + sfx, ClientStreams: true, ServerStreams: true}, "/verif.Svc/BD"+sfx, opts...)
 		if err == nil {
 			st.CloseSend()
 			err = st.RecvMsg(&gt.Message{})
@@ -163,6 +175,8 @@ func credsCase(c map[string]interface{}) (out map[string]interface{}) {
 		}
 	}
 	out["err"] = err != nil
+	st, _ := status.FromError(err)
+	out["herr"] = err != nil && st.Code() == codes.NotFound && st.Message() == "handler says no"
 	if err != nil {
 		out["text"] = trunc(err.Error(), 80)
 	}
